@@ -632,19 +632,43 @@ def sym_value(e, assumed, env):
 def simulate(f, path):
     """Walk an enumerated path keeping symbolic values of boolean locals (copy propagation).  Returns
     (feasible, env, assumed, events) — infeasible when a branch on a local contradicts its propagated value."""
+    import re as _re
     env = {}
+    ints = {}          # integer locals holding a known constant (constant propagation along the path)
     assumed = {}
     evs = []
     for (bid, at) in path:
         for ev in f.blocks[bid].events:
             evs.append(ev)
-            if ev.kind in ("decl", "assign") and ev.lhs is not None and strip(ev.lhs)["k"] == "var" and \
-                    (ev.kind == "decl" or ev.e["op"] == "=") and ev.rhs is not None:
+            if ev.kind in ("decl", "assign", "incdec") and ev.lhs is not None and strip(ev.lhs)["k"] == "var":
                 name = S(ev.lhs)
-                t = (ev.e.get("t") if ev.kind == "decl" else strip(ev.lhs).get("t", "")) or ""
-                if "bool" in t or "_Bool" in t:
-                    env[name] = sym_value(ev.rhs, assumed, env)
+                if ev.kind in ("decl", "assign") and (ev.kind == "decl" or ev.e["op"] == "=") and ev.rhs is not None:
+                    t = (ev.e.get("t") if ev.kind == "decl" else strip(ev.lhs).get("t", "")) or ""
+                    if "bool" in t or "_Bool" in t:
+                        env[name] = sym_value(ev.rhs, assumed, env)
+                    elif cval(ev.rhs) is not None:
+                        ints[name] = cval(ev.rhs)
+                    else:
+                        ints.pop(name, None)
+                else:
+                    ints.pop(name, None)
+            elif ev.kind == "call":
+                for a_ in ev.args:
+                    sa = strip(a_)
+                    if sa is not None and sa["k"] == "un" and sa["op"] == "&" and strip(sa["e"])["k"] == "var":
+                        ints.pop(strip(sa["e"])["name"], None)
         for (a, p) in at:
+            m_ = _re.match(r"^\((\w+) (==|<|>) (-?\d+)\)$", a)
+            if m_ and m_.group(1) in ints:
+                v, k = ints[m_.group(1)], int(m_.group(3))
+                truth = {"==": v == k, "<": v < k, ">": v > k}[m_.group(2)]
+                if truth != p:
+                    return False, env, assumed, evs
+                continue
+            if a in ints:
+                if bool(ints[a]) != p:
+                    return False, env, assumed, evs
+                continue
             if a in env:
                 x = env[a]
                 if x in (True, False):
